@@ -43,6 +43,13 @@ class SymStr:
                 return True
             if self.codec == o.codec and self.xf == o.xf and self.data is o.data:
                 return True
+            from symx.core import eng
+            from symx.sbytes import SymBytes
+
+            if eng() is not None and getattr(eng(), "structural_bytes_eq", False):
+                if self.codec != o.codec or self.xf != o.xf:
+                    return False
+                return SymBytes.lift(self.data).structurally_equal(o.data)
             raise Unsupported("equality of two symbolic strings")
         if isinstance(o, str):
             if self.xf:
